@@ -117,6 +117,47 @@ def expected_prefix(sc, env, denoise_path):
     return w
 
 
+def trace_oracle(ck, inp, sc, trace, sudo, ending, num_cores):
+    """the property on the ordered log; sudo: list of (verb, argv)"""
+    n_restore = sum(1 for t in trace if t['t'] == 'restore')
+    n_minimize = sum(1 for t in trace if t['t'] == 'minimize')
+    if sc['no_denoise']:
+        if sudo:
+            ck.oracle_fail('noD_silent', inp, {'sudo_calls': [a for _v, a in sudo]})
+        return
+    if n_minimize != 1 or trace[0]['t'] != 'minimize':
+        ck.oracle_fail('minimize_once_first', inp, {'trace': trace})
+    if settings_changed(sc['report']) and n_restore != 1:
+        ck.oracle_fail('restore_once', inp, {'restores': n_restore, 'trace': trace, 'ending': ending},
+                       {'path': sc['path'], 'restores': 'none' if n_restore == 0 else 'many'})
+    if n_restore > 1:
+        ck.oracle_fail('restore_once', inp, {'restores': n_restore, 'trace': trace},
+                       {'path': sc['path'], 'restores': 'many'})
+    if n_restore:
+        ri = max(i for i, t in enumerate(trace) if t['t'] == 'restore')
+        late_starts = [t for t in trace[ri:] if t['t'] == 'start']
+        if late_starts:
+            ck.oracle_fail('restore_after_last_start', inp, {'trace': trace}, {'path': sc['path']})
+        open_at_restore = set(t['i'] for t in trace[:ri] if t['t'] == 'start') - \
+            set(t['i'] for t in trace[:ri] if t['t'] == 'stop')
+        if open_at_restore:
+            ck.oracle_fail('restore_after_processes_ended', inp,
+                           {'running_at_restore': sorted(open_at_restore), 'trace': trace},
+                           {'path': 'interrupt' if sc['path'] in ('interrupt', 'terminate') else sc['path'],
+                            'cause': 'child-not-killed' if not any(t['t'] == 'kill' for t in trace[:ri])
+                            else 'other'})
+        r = [t for t in trace if t['t'] == 'restore'][0]
+        if r['without_nice'] != (not granted(sc['report'], 'nice')) or \
+                r['without_shielding'] != (not granted(sc['report'], 'shield')):
+            ck.oracle_fail('restore_flags', inp, {'restore': [a for v, a in sudo if v == 'restore']})
+    for v, a in sudo:
+        if v in ('minimize', 'restore'):
+            if '--num-cores' not in a or a[a.index('--num-cores') + 1] != str(num_cores):
+                ck.oracle_fail('sudo_args', inp, {'cmd': a}, {'what': 'num-cores'})
+            if v == 'minimize' and (('--for-profiling' in a) != sc['profiling']):
+                ck.oracle_fail('sudo_args', inp, {'cmd': a}, {'what': 'for-profiling'})
+
+
 _counter = [0]
 
 
@@ -163,43 +204,7 @@ def check_sessions(ck, scenarios):
         n_restore = sum(1 for t in trace if t['t'] == 'restore')
         n_minimize = sum(1 for t in trace if t['t'] == 'minimize')
         # ------------------------------------------------ oracle
-        if sc['no_denoise']:
-            if sudo:
-                ck.oracle_fail('noD_silent', inp, {'sudo_calls': [e[2] for e in sudo]})
-        else:
-            if n_minimize != 1 or trace[0]['t'] != 'minimize':
-                ck.oracle_fail('minimize_once_first', inp, {'trace': trace})
-            if settings_changed(sc['report']) and n_restore != 1:
-                ck.oracle_fail('restore_once', inp, {'restores': n_restore, 'trace': trace, 'ending': ending},
-                               {'path': sc['path'], 'restores': 'none' if n_restore == 0 else 'many'})
-            if n_restore > 1:
-                ck.oracle_fail('restore_once', inp, {'restores': n_restore, 'trace': trace},
-                               {'path': sc['path'], 'restores': 'many'})
-            if sc['report']['kind'] == 'raised' and n_restore:
-                pass  # nothing was changed; a restore would be harmless
-            if n_restore:
-                ri = max(i for i, t in enumerate(trace) if t['t'] == 'restore')
-                late_starts = [t for t in trace[ri:] if t['t'] == 'start']
-                if late_starts:
-                    ck.oracle_fail('restore_after_last_start', inp, {'trace': trace}, {'path': sc['path']})
-                open_at_restore = set(t['i'] for t in trace[:ri] if t['t'] == 'start') - \
-                    set(t['i'] for t in trace[:ri] if t['t'] == 'stop')
-                if open_at_restore:
-                    ck.oracle_fail('restore_after_processes_ended', inp,
-                                   {'running_at_restore': sorted(open_at_restore), 'trace': trace},
-                                   {'path': sc['path'],
-                                    'cause': 'child-not-killed' if not any(t['t'] == 'kill' for t in trace[:ri])
-                                    else 'other'})
-                r = [t for t in trace if t['t'] == 'restore'][0]
-                if r['without_nice'] != (not granted(sc['report'], 'nice')) or \
-                        r['without_shielding'] != (not granted(sc['report'], 'shield')):
-                    ck.oracle_fail('restore_flags', inp, {'restore': [e[2] for e in sudo if e[1] == 'restore']})
-            for e in sudo:
-                if e[1] in ('minimize', 'restore'):
-                    if '--num-cores' not in e[2] or e[2][e[2].index('--num-cores') + 1] != str(sc['num_cores']):
-                        ck.oracle_fail('sudo_args', inp, {'cmd': e[2]}, {'what': 'num-cores'})
-                    if e[1] == 'minimize' and (('--for-profiling' in e[2]) != sc['profiling']):
-                        ck.oracle_fail('sudo_args', inp, {'cmd': e[2]}, {'what': 'for-profiling'})
+        trace_oracle(ck, inp, sc, trace, [(e[1], e[2]) for e in sudo], ending, sc['num_cores'])
         # wrapping of every benchmark command
         env = sc['env']
         prefix = expected_prefix(sc, env, denoise_path)
@@ -297,6 +302,123 @@ def check_shield(ck, upto):
     ck.count('shield:n=1..%d' % upto)
 
 
+
+# ------------------------------------------------- thorough: real CLI + fake sudo
+def gen_cli_scenarios(ck, n):
+    rng = ck.rng
+    reps = [r for r in all_reports() if r['kind'] == 'json' and r['others']] + \
+        [{'kind': 'nonjson', 'msg': 'password'}, {'kind': 'nonjson', 'msg': 'other'}]
+    out = []
+    paths = ['ok', 'failed', 'ui_error', 'interrupt', 'terminate', 'crash']
+    for i in range(n):
+        rep = rng.choice(reps) if i >= 6 else {'kind': 'json', 'nice': 'yes', 'shield': rng.choice(['yes', 'no']),
+                                                'others': ['yes', 'yes', 'yes']}
+        out.append({'kind': 'cli', 'report': rep, 'path': paths[i % len(paths)], 'profiling': False,
+                    'no_denoise': rng.random() < 0.1, 'env': rng.choice(ENVS), 'cset': None, 'at': rng.choice([1, 2, 3])})
+    return out
+
+
+def check_cli(ck, scenarios):
+    import drive_denoise_cli as cli
+    from rebench.denoise import paths as denoise_paths
+    denoise_path = denoise_paths.get_denoise()
+    ops, recs = [], []
+    for sc in scenarios:
+        _counter[0] += 1
+        wd = os.path.realpath(os.path.join(ck.scratch, 'cli%d' % _counter[0]))
+        os.makedirs(wd)
+        rep = sc['report']
+        if rep['kind'] == 'json':
+            out, rc = dd.report_output(rep), 0
+        elif rep['msg'] == 'password':
+            out, rc = b'sudo: a password is required\n', 1
+        else:
+            out, rc = b'this is not JSON\n', 0
+        r = cli.run_cli_session(wd, sc, out, rc, lib.REPO)
+        ck.impl_traces += 1
+        inp = dict(sc)
+        ending = {0: 'ok', 2: 'interrupt', 3: 'ui_error'}.get(
+            r['exit'], 'crash' if ('Traceback' in r['stderr'] or r['exit'] != 1) else 'failed')
+        ck.count('cli:%s->%s' % (sc['path'], ending))
+        idx_of = {}
+        stopped = set()
+        trace, sudo, execs = [], [], []
+        for e in r['events']:
+            if e[0] == 'sudo':
+                a = ['sudo'] + e[1:]
+                if 'minimize' in a:
+                    trace.append({'t': 'minimize', 'profiling': '--for-profiling' in a})
+                    sudo.append(('minimize', a))
+                elif 'restore' in a:
+                    trace.append({'t': 'restore', 'without_shielding': '--without-shielding' in a,
+                                  'without_nice': '--without-nice' in a})
+                    sudo.append(('restore', a))
+                elif 'exec' in a and '--' in a:
+                    execs.append(a)
+                    sudo.append(('exec', a))
+                elif 'kill' in a:
+                    if not trace or trace[-1]['t'] != 'kill':
+                        trace.append({'t': 'kill', 'i': 0})
+                    sudo.append(('kill', a))
+                else:
+                    sudo.append(('other', a))
+            elif e[0] == 'start':
+                idx_of[e[1]] = int(e[2])
+                trace.append({'t': 'start', 'i': int(e[2])})
+            elif e[0] in ('stop', 'killed'):
+                if e[1] in idx_of and e[1] not in stopped:
+                    stopped.add(e[1])
+                    trace.append({'t': 'stop', 'i': idx_of[e[1]]})
+        num_cores = None
+        for v, a in sudo:
+            if v == 'minimize' and '--num-cores' in a:
+                num_cores = a[a.index('--num-cores') + 1]
+        if sc['no_denoise']:
+            if [x for x in sudo]:
+                ck.oracle_fail('noD_silent', inp, {'sudo_calls': [a for _v, a in sudo]})
+        else:
+            trace_oracle(ck, inp, sc, trace, [(v, a) for v, a in sudo if v != 'exec'], ending, num_cores)
+        if r['left_running']:
+            ck.oracle_fail('restore_after_processes_ended', inp,
+                           {'alive_after_rebench_exited': r['left_running'], 'trace': trace},
+                           {'path': 'interrupt' if sc['path'] in ('interrupt', 'terminate') else sc['path'],
+                            'cause': 'child-not-killed' if not r['killed'] else 'other'})
+        # wrapping as seen by the fake sudo, env as seen by the benchmark process
+        sc2 = dict(sc, num_cores=num_cores)
+        prefix = expected_prefix(sc2, r['run_env'], denoise_path)
+        n_starts = sum(1 for t in trace if t['t'] == 'start')
+        if prefix and len(execs) != n_starts:
+            ck.oracle_fail('wrap_as_granted', inp, {'wrapped_starts': len(execs), 'starts': n_starts},
+                           {'what': 'count'})
+        if not prefix and execs:
+            ck.oracle_fail('wrap_as_granted', inp, {'unexpected_sudo_exec': execs[:2]}, {'what': 'not-granted'})
+        for a in execs:
+            k = a.index('--')
+            if a[:k + 1] != prefix:
+                ck.oracle_fail('wrap_as_granted', inp, {'expected_prefix': prefix, 'observed': a},
+                               {'nice': granted(rep, 'nice'), 'shield': granted(rep, 'shield')})
+        for n, env in r['envs'].items():
+            got = dict((k, v) for k, v in env.items() if k not in ('PWD', 'OLDPWD', 'SHLVL', '_'))
+            if got != r['run_env']:
+                ck.oracle_fail('env_forwarded', inp, {'expected': r['run_env'], 'observed': got})
+        # model
+        if any(t['t'] == 'restore' for t in trace):
+            ri = max(i for i, t in enumerate(trace) if t['t'] == 'restore')
+            head = trace[:ri + 1]
+        else:
+            head = trace
+        body = [{'t': t['t'], 'i': t['i']} for t in head if t['t'] in ('start', 'stop', 'kill')]
+        ops.append({'op': 'c20.session', 'no_denoise': sc['no_denoise'], 'profiling': False,
+                    'report': rep, 'body': {'trace': body, 'ending': ending}})
+        recs.append((inp, head, ending))
+        ck.case(nontrivial_key=('cli', _counter[0]), sample={'cli': sc['path'], 'trace': [t['t'] for t in trace]}
+                if _counter[0] % 20 == 1 else None)
+    for (inp, head, ending), ans in zip(recs, ck.model(ops)):
+        if ans.get('trace') != head or ans.get('ending') != ending:
+            ck.disagree('c20.session: fake-sudo log of the real CLI vs RB.Denoise.session', inp,
+                        {'trace': head, 'ending': ending}, ans, TH_SESSION)
+
+
 def gen_scenarios(ck, quick):
     rng = ck.rng
     out = []
@@ -331,6 +453,9 @@ def dispatch(ck, inputs):
     sess = [i for i in inputs if i['kind'] == 'session']
     for i in range(0, len(sess), 120):
         check_sessions(ck, sess[i:i + 120])
+    cl = [i for i in inputs if i['kind'] == 'cli']
+    if cl:
+        check_cli(ck, cl)
     for i in inputs:
         if i['kind'] == 'shield':
             check_shield(ck, 4096)
@@ -357,6 +482,7 @@ def run(ck):
     if not quick:
         for _ in range(3):
             dispatch(ck, gen_scenarios(ck, False))
+        dispatch(ck, gen_cli_scenarios(ck, 48))
 
 
 def replay(ck, data):
